@@ -61,6 +61,9 @@ def shards(tier):
             out.append({'block': b, 'place': 'parent', 'en': e, 'domains': 2})
         # two distinct ClockDriver objects that carry the same name (a reusable self-gating block instantiated twice)
         out.append({'block': b, 'place': 'parent', 'en': 'input', 'domains': 2, 'samename': 1})
+        # two distinct drivers (two blocks, each with its own gated driver) that share one enable wire
+        out.append({'block': b, 'place': 'parent', 'en': 'input', 'domains': 2, 'sharedenable': 1})
+        out.append({'block': b, 'place': 'self', 'en': 'input', 'domains': 2, 'sharedenable': 1})
         # drivers assigned after a first getSimulator() (the simulator is then re-obtained)
         out.append({'block': b, 'place': 'parent', 'en': 'input', 'domains': 1, 'late': 1})
         out.append({'block': b, 'place': 'grand', 'en': 'self', 'domains': 1, 'late': 1})
@@ -163,8 +166,13 @@ def build(d, gated):
         if d.get('probe'):
             Probe(g1, 'probe', q)
         # enable source
-        en = hw.wire(tag + '_en', 2 if d['en'] == 'wide' else 1)
-        if d['en'] in ('input', 'wide'):
+        if d.get('sharedenable') and k > 0:
+            en = c.enables['D0']                 # two different ClockDriver objects gated by ONE enable wire
+        else:
+            en = hw.wire(tag + '_en', 2 if d['en'] == 'wide' else 1)
+        if d.get('sharedenable') and k > 0:
+            pass
+        elif d['en'] in ('input', 'wide'):
             free.append(en)
         elif d['en'] in ('self', 'inner'):
             # enable = (bit 0 of the gated block's own output) OR kick; 'inner': the two cells live inside the gated hierarchy
